@@ -1,5 +1,6 @@
 (* Executable model of yui-matrix/src/dense/lll.rs (LLL and LLL-based Hermite normal form), after the
-   fixes "exact div_round" (dfe26dc) and "normalize the pivot of the last row in lll_hnf" (7156934).
+   fixes "exact div_round" (dfe26dc), "normalize the pivot of the last row in lll_hnf" (7156934) and
+   "lll on a matrix without rows" (b5d7608).
 
    INTERFACE (stable; imported by the Smith-normal-form model for SnfCalc::preprocess):
 
@@ -12,7 +13,8 @@
 
    Matrices are lists of rows ([lmat] of Base/MatL); the shape is (length A, lncols A).  [None] is a Rust
    panic (assert!, division by zero, index out of bounds, unwrap on None) or exhausted fuel; one unit
-   of fuel is one call of `iterate`.  Ring elements are unbounded (an i64 overflow panic is not
+   of fuel is one call of `iterate`.  Every LLLData operation checks its row indices against nrows
+   (nalgebra / Vec indexing panics); inside the two loops these checks never fire (k = step < nrows).  Ring elements are unbounded (an i64 overflow panic is not
    modelled: BigInt is the exact instance).  Definitions only; proofs are in Proofs/C10*.v. *)
 From Coq Require Import ZArith List Bool Arith.
 Require Import Yui.Base.Ring Yui.Base.MatF Yui.Base.MatL.
@@ -290,12 +292,10 @@ Section LLL.
 
   Definition orthogonalize (b : mat) : option (mat * mat * list R) :=
     let m := length b in
-    match m with
-    | O => None                                             (* c.row(0) / d[0] out of bounds *)
-    | S _ =>
-        let d := vset m (repeat 1 m) O (h_dot (mrow b O) (mrow b O)) in
-        ofold (orth_outer b) (seq 1 (m - 1)) (b, lzero o m m, d)
-    end.
+    let d := if (0 <? m)%nat                                   (* if m > 0 { d[0] = h_dot(c_0, c_0) } *)
+             then vset m (repeat 1 m) O (h_dot (mrow b O) (mrow b O))
+             else repeat 1 m in
+    ofold (orth_outer b) (seq 1 (m - 1)) (b, lzero o m m, d).
 
   (* LLLData::setup *)
   Definition setup (s : lll_data) : option lll_data :=
@@ -305,7 +305,7 @@ Section LLL.
 
   (* LLLData::lovasz_ok *)
   Definition lovasz_ok (s : lll_data) (k : nat) : option bool :=
-    if (k =? 0)%nat then None else
+    if (k =? 0)%nat || negb (k <? nr s)%nat then None else        (* assert!(k > 0); d[k] in bounds *)
     let d := det s in
     let l := lambda s in
     let (p, q) := lalpha L in
@@ -321,7 +321,7 @@ Section LLL.
 
   (* LLLData::add_row_to *)
   Definition add_row_to (s : lll_data) (i k : nat) (r : R) : option lll_data :=
-    if negb (i <? k)%nat then None else
+    if negb (i <? k)%nat || negb (k <? nr s)%nat then None else   (* assert!(i < k); row k in bounds *)
     let m := nr s in
     let n := nc s in
     let t' := m_add_row_to m n (target s) i k r in
@@ -333,7 +333,7 @@ Section LLL.
 
   (* LLLData::reduce *)
   Definition reduce (s : lll_data) (i k : nat) : option lll_data :=
-    if negb (i <? k)%nat then None else
+    if negb (i <? k)%nat || negb (k <? nr s)%nat then None else
     do q <- ldiv_round L (mget (lambda s) k i) (vget (det s) i);
     if q == 0 then Some s else add_row_to s i k (- q).
 
@@ -349,7 +349,7 @@ Section LLL.
     Some (m_set m m (m_set m m l i (k - 1) s') i k t').
 
   Definition swap (s : lll_data) (k : nat) : option lll_data :=
-    if (k =? 0)%nat then None else
+    if (k =? 0)%nat || negb (k <? nr s)%nat then None else        (* assert!(k > 0); row k in bounds *)
     let m := nr s in
     let n := nc s in
     let t' := m_swap_rows m n (target s) (k - 1) k in
@@ -371,7 +371,7 @@ Section LLL.
 
   (* LLLData::mul_row *)
   Definition mul_row (s : lll_data) (i : nat) (r : R) : option lll_data :=
-    if negb (lis_unit L r) then None else
+    if negb (lis_unit L r) || negb (i <? nr s)%nat then None else (* assert!(r.is_unit()); row i in bounds *)
     let m := nr s in
     let n := nc s in
     let t' := m_mul_row m n (target s) i r in
@@ -425,7 +425,7 @@ Section LLL.
 
   (* ---- LLLHNFCalc ---- *)
   Definition hnf_reduce (s : lll_data) (i k : nat) : option lll_data :=
-    if negb (i <? k)%nat then None else
+    if negb (i <? k)%nat || negb (k <? nr s)%nat then None else
     match nz_col_in s i with
     | Some j =>
         let u := lnunit L (mget (target s) i j) in
@@ -438,7 +438,7 @@ Section LLL.
     end.
 
   Definition hnf_is_ok (s : lll_data) (k : nat) : option bool :=
-    if (k =? 0)%nat then None else
+    if (k =? 0)%nat || negb (k <? nr s)%nat then None else
     match nz_col_in s (k - 1), nz_col_in s k with
     | Some j, Some l => Some (l <? j)%nat
     | Some _, None => Some false
